@@ -10,7 +10,7 @@ CHECKS = {
    note="Trusted: GMP, the harness decoding, malloc-backed storage (STO_USE_MALLOC). bintMod's sign convention is taken from fiBIntRem.", design="4 C11"),
  "C01": dict(level="exploration", engine="hypothesis-subprocess",
    technique="property-based testing (Hypothesis-generated typed programs) against an independent reference evaluator, on two execution routes",
-   text="Programs drawn from a typed abstract grammar (integers of both widths, booleans, strings, lists, arrays, records, unions, closures, generators, loops with break/iterate, early exit, exceptions, overloading, macros, parametrised domains with category defaults) are run by the interpreter and as C executables and compared line by line with a Python reference evaluator of the same tree.",
+   text="Programs drawn from a typed abstract grammar (integers of both widths with 12 library operations, booleans, strings, lists, arrays, records, unions, closures, generators, loops with break/iterate, early exit, exceptions, overloading, macros, parametrised domains with category defaults, and five stateful templates: outer-variable update, deep lexical nesting, fluids, accumulator closures, try/finally; half of the programs written without redundant parentheses) are run by the interpreter and as C executables and compared line by line with a Python reference evaluator of the same tree.",
    note="Trusted: the reference evaluator (vt/gen/prog.py) for the stated sub-language; constructs that hit known compiler defects are excluded by construction and listed in known_findings.json.", design="4 C01"),
  "C02": dict(level="exploration", engine="hypothesis-subprocess",
    technique="differential property-based testing: generated programs x generated optimisation configurations, oracle = same program at -Q0 on the same route",
@@ -22,7 +22,7 @@ CHECKS = {
    note="Only tool-emitted text is normalised away.", design="4 C03"),
  "C04": dict(level="exploration", engine="hypothesis-subprocess",
    technique="three-way differential testing (constant folder / interpreter / C runtime) of every pure builtin over the boundary product of its argument types, plus an exact Python model for the Bool/Char/SInt/BInt operations",
-   text="For each of 133 builtin operations one generated source imports it from Builtin and prints its exact result on every boundary tuple of its domain; the outputs of -Q0 -Ginterp, the -Q0 executable and -Q2 -Qinline-all (folded) must agree line by line and with the mathematical model. 69 operations are actually folded (checked in the -Q2 FOAM), the others are compared interpreter vs runtime vs model.",
+   text="For each of 133 builtin operations one generated source imports it from Builtin and prints its exact result on every boundary tuple of its domain; the outputs of -Q0 -Ginterp, the -Q0 executable and -Q2 -Qinline-all (folded) must agree line by line and with the mathematical model. One small function per tuple keeps the inliner's budget from starving the folder; the evidence counts, per operation, the applications left unfolded in the -Q2 FOAM (67 operations fully folded, 20 partly; for the rest - big-integer and double-float operands, operations the folder does not implement - the comparison is interpreter vs runtime vs model).",
    note="Quick tier: seeded sample of <= 160 tuples per operation; thorough: up to 3000 (the full product for most operations).", design="4 C04"),
  "C05": dict(level="exploration", engine="hypothesis-subprocess",
    technique="round-trip and differential property-based testing: generated programs with extreme constants through .ao / .fm / .al and library/client splits, byte comparison after the two stated normalisations",
@@ -30,11 +30,11 @@ CHECKS = {
    note="K5 (omitted casts on the .fm route) is a listed known finding matched exactly.", design="4 C05"),
  "C06": dict(level="exploration", engine="hypothesis-subprocess",
    technique="property-based testing with a catalogue of single-fault mutants: each generated well-typed program must be accepted, each guaranteed-illegal mutant (planted at enumerated sites) must be rejected with a positioned error and no output file",
-   text="Well-typed generated programs are compiled with -Fao -Fc -Ffm -Flsp and must be accepted with all outputs; nine catalogue faults, illegal by construction (nominal domain no operation accepts, fresh identifiers), are planted in the main block and in function bodies and must be rejected with exit != 0, a positioned (Error) line and no output files.",
+   text="Well-typed generated programs are compiled with -Fao -Fc -Ffm -Flsp and must be accepted with all outputs; thirteen catalogue faults, illegal by construction (nominal domain no operation accepts, fresh identifiers, conditionally implemented required export, the same export imported from two instances of a parametrised domain / two parameters of one category / two scopes), are planted in the main block and in function bodies and must be rejected with exit != 0, a positioned (Error) line and no output files; the four well-typed twins of the last four entries must be accepted.",
    note="No particular message text is demanded.", design="4 C06"),
  "C07": dict(level="exploration", engine="hypothesis-subprocess",
    technique="mutation-based fuzzing driven by Hypothesis recipes (token/bracket/pile/escape/directive mutations of corpus and generated sources, random bytes) with a validity-predicate oracle",
-   text="Every generated input is compiled with -Fap -Fao; the compiler must exit without signal or internal fault, within the CPU limit, and exit non-zero exactly when it printed an error. Fault sites already known are listed as known findings by call site.",
+   text="Every generated input is compiled with -Fap -Fao; the compiler must exit without signal or internal fault, within the CPU limit, and exit non-zero exactly when it printed an error; a second family plants one of 19 certainly invalid constructs (unterminated #if chains, stray #endif/#else, missing include, #error, open string / brace / parenthesis, circular macros) into generated valid programs, which must then be rejected with a diagnostic and no output. Fault sites already known are listed as known findings by call site.",
    note="Faults are recognised by the signal handler's marker (hook 2) or death by signal, never by text that an echoed source line could forge.", design="4 C07"),
  "C08": dict(level="exploration", engine="hypothesis-subprocess",
    technique="metamorphic property-based testing: pairs of compilations differing in one environmental variation (ASLR, collector on/off/forced schedule via hook, working directory, environment, batch), byte comparison of all outputs",
@@ -42,11 +42,11 @@ CHECKS = {
    note="Forced collection uses hook 1 (ALDOR_VERIF_GC). Batch-vs-separate is a listed known finding.", design="4 C08"),
  "C09": dict(level="exploration", engine="hypothesis-subprocess",
    technique="differential property-based testing over collection schedules: forced collection every k-th allocation (hook, freed storage poisoned) versus the collector never running, on both execution routes",
-   text="Allocation-heavy generated programs run as executables under k in {1..987} (collect at every allocation included) and under the interpreter with k in [331,1000]; output and exit class must equal the run without collection; over a million forced collections per quick run.",
+   text="Allocation-heavy generated programs run as executables under k in {1..987} (collect at every allocation included) and under the interpreter with k in [331,1000]; output and exit class must equal the run without collection; over a million forced collections per quick run. A scale family keeps one chain of up to 300000 cells live across collections (three cell shapes) with closed-form expected output, and every collecting run has an open-file limit of 40.",
    note="Schedules are 'every k-th allocation from offset j'; arbitrary subsets are sampled by that family.", design="4 C09"),
  "C10": dict(level="exploration", engine="rapidcheck-stateful",
    technique="stateful model-based property testing (rapidcheck histories, fork-isolated, reference model of live blocks) + exhaustive enumeration of short histories",
-   text="Random alloc/free/resize/recode/link/root/gc histories (<=200 steps quick, up to 1e5 thorough) and all histories of length <=5 (thorough <=6) over a 10-letter alphabet run on the real allocator in both build flavours; after every step alignment, size, disjointness, byte patterns, code, survival of reachable blocks and stoAudit are checked.",
+   text="Random alloc/free/resize/recode/link/root/gc histories (<=200 steps quick, up to 1e5 thorough), fragmentation histories (33-120 distinct multi-page free sizes at once, three free / re-request orders) and all histories of length <=5 (thorough <=6) over a 10-letter alphabet run on the real allocator in both build flavours; after every step alignment, size, disjointness, byte patterns, code, survival of reachable blocks and stoAudit are checked.",
    note="Trusted: the C++ model; survival asserted only for blocks reachable from static roots the marker scans.", design="4 C10"),
  "C12": dict(level="exploration", engine="hypothesis-subprocess",
    technique="differential property-based testing: generated programs (Java-supported subset) x levels, javac + java against the shipped jars versus the interpreter",
@@ -66,11 +66,11 @@ CHECKS = {
    note="Columns >= 16384 are a listed known finding (14-bit column field).", design="4 C15"),
  "C16": dict(level="exploration", engine="hypothesis-subprocess",
    technique="differential property-based testing over C-generation option tuples: generated programs with long shared-prefix identifiers, gcc compile + link against the shipped runtime, run versus the default-option build",
-   text="Generated programs (functions renamed to 40-90 character names sharing a drawn prefix) are compiled with tuples of -Cstandard/-Cold, -Cidhash, -Cidlen, -Csmax (file splitting) and -Clines/-Cno-lines; every emitted C file must compile, the objects must link against the shipped libraries, and the executable must behave like the default build.",
+   text="Generated programs (functions renamed to 40-90 character names sharing a drawn prefix) are compiled with tuples of -Cstandard/-Cold, -Cidhash, -Cidlen, -Csmax (file splitting) and -Clines/-Cno-lines; every emitted C file must compile, the objects must link against the shipped libraries, and the executable must behave like the default build. Two further families: the functions compiled as a separate library unit and linked with the client under the same options (exported C names; output compared with the reference evaluator), and a per-program sweep of -Csmax over 12 values at and just below the limit at which splitting stops (found by bisection on the number of emitted C files).",
    note="Non-default identifier lengths are link-checked only (known finding K6: prebuilt libraries use the default limit).", design="4 C16"),
  "C17": dict(level="fault_enumeration", engine="fault-enumeration",
-   technique="exhaustive enumeration of truncation points plus seeded single-byte substitutions of valid .ao/.fm/.al files, validity-predicate oracle over five consumers",
-   text="Every truncation length of the object file (each point at which a writer could have died) and substitutions at every header/section-table offset and seeded body offsets are fed to five consumers; each must reproduce the intact outputs byte for byte or refuse with a diagnostic and non-zero status, never fault, hang or silently differ.",
+   technique="exhaustive enumeration of truncation points plus seeded single-byte substitutions of valid .ao/.fm/.al files, validity-predicate oracle over six consumers",
+   text="Every truncation length of the object file (each point at which a writer could have died) and substitutions at every header/section-table offset and seeded body offsets are fed to six consumers (one reads the unit as the last of two archive members); each must reproduce the intact outputs byte for byte or refuse with a diagnostic and non-zero status, never fault, hang or silently differ.",
    note="Substitutions inside section contents are a listed known finding (no checksum in the format); truncations and header damage are strict.", design="4 C17"),
  "C18": dict(level="fault_enumeration", engine="fault-enumeration",
    technique="fault injection enumerated over output kinds x fault points: /dev/full, directory/missing-directory targets, the n-th write(2) failing (strace -e inject) for every n, RLIMIT_FSIZE sweep; validity-predicate oracle",
